@@ -26,6 +26,7 @@ var table = map[string]func(*core.Ctx){
 	"C08": props.C08,
 	"C09": props.C09,
 	"C10": props.C10,
+	"C11": props.C11,
 	"C12": props.C12,
 	"C13": props.C13,
 	"C14": props.C14,
